@@ -149,21 +149,28 @@ type envelope struct {
 	key   []byte
 }
 
-// openEnvelope: no KEKLabel = key in the clear; otherwise RFC 3394 unwrap under the KEK configured
-// for that label (AES-128/192/256 by KEK length)
-func openEnvelope(keks func(string) []byte, e *envelope) (out []byte, err error) {
+// openEnvelope: a server that shares a KEK with the join server under the label `own` expects its
+// key wrapped with it (RFC 3394, AES-128/192/256 by KEK length) and labelled; a server without one
+// expects the key in the clear without a label.
+func openEnvelope(keks func(string) []byte, own string, e *envelope) (out []byte, err error) {
 	if e == nil {
 		return nil, errors.New("envelope absent")
 	}
-	if e.label == "" {
+	if own == "" || len(keks(own)) == 0 {
+		if e.label != "" {
+			return nil, fmt.Errorf("KEKLabel %q although no KEK is shared", e.label)
+		}
 		return e.key, nil
+	}
+	if e.label != own {
+		return nil, fmt.Errorf("KEKLabel %q, the server shares a KEK under %q", e.label, own)
 	}
 	defer func() {
 		if r := recover(); r != nil {
 			err = fmt.Errorf("unwrap panicked: %v", r)
 		}
 	}()
-	c, err := aes.NewCipher(keks(e.label))
+	c, err := aes.NewCipher(keks(own))
 	if err != nil {
 		return nil, err
 	}
